@@ -252,4 +252,18 @@ PROPS = {
             "Close after a successful Sync and Stat errors other than not-exist are not injected",
         ],
     },
+    "C20": {
+        "level": "exploration",
+        "technique": "property-based testing (rapid): generated result trees and test-file layouts on an in-memory filesystem; RunTests' verdict, per-leaf report lines and summary compared with a leaf census computed on the model tree",
+        "level_text": "Generated-input search: 0-3 *_test.arrai files in nested directories whose results are trees of tuples, arrays (incl. offset and sparse), dictionaries (string "
+                      "and non-string keys, multi-valued keys) nested to depth 3 with leaves true / false / number / string / set / relation / byte array, rendered through sugar, spelled-out and "
+                      "computed construction paths; plus files in hidden directories and non-test files (must be ignored, even with garbage content) and test files that fail to compile or evaluate. "
+                      "Oracle: RunTests returns nil iff there is at least one test file, all evaluate and every leaf is the literal true; the report has exactly one PASS/FAIL/?? line per leaf, the "
+                      "summary counts equal the census, and (for trees of tuples, dense arrays and string-keyed dicts) the multiset of reported leaf paths equals the model's.",
+        "level_note": "Trusted: the 40-line leaf census in c20_test.go (containers = tuples, arrays, dictionaries; everything else, including {} and [], is a leaf), afero MemMapFs, rapid. "
+                      "Unparseable test files use syntax errors whose message renders quickly; most syntax errors hit finding hang@wbnf.ParseError.Error (C10), which would wedge the run.",
+        "tests": [{"name": "TestC20", "quick": 1500, "thorough": 20000}],
+        "rule": "non-trivial: at least two test files, or a tree of depth >= 3, or an offset/sparse array in the tree. Distinct = distinct case JSON.",
+        "assumptions": COMMON_ASSUMPTIONS,
+    },
 }
